@@ -230,18 +230,45 @@ theorem daysBeforeMonth_13 (y : Nat) :
   rw [d1, d2, d3, d4, d5, d6, d7, d8, d9, d10, d11, d12]
   cases isLeap y <;> simp
 
+theorem div_facts (z : Nat) :
+    z / 100 ≤ z / 4 ∧ (z + 1) / 100 ≤ (z + 1) / 4 ∧
+    ((z + 1) / 4 = z / 4 + if (z + 1) % 4 = 0 then 1 else 0) ∧
+    ((z + 1) / 100 = z / 100 + if (z + 1) % 100 = 0 then 1 else 0) ∧
+    ((z + 1) / 400 = z / 400 + if (z + 1) % 400 = 0 then 1 else 0) := by
+  refine ⟨?_, ?_, ?_, ?_, ?_⟩
+  · omega
+  · omega
+  · split <;> omega
+  · split <;> omega
+  · split <;> omega
+
 theorem daysBeforeYear_succ (y : Nat) (hy : 1 ≤ y) :
     daysBeforeYear (y + 1) = daysBeforeYear y + (if isLeap y then 366 else 365) := by
+  obtain ⟨z, rfl⟩ : ∃ z, y = z + 1 := ⟨y - 1, by omega⟩
   unfold daysBeforeYear
   simp only [Nat.add_sub_cancel]
-  by_cases hl : isLeap y = true
+  obtain ⟨l1, l2, e4, e100, e400⟩ := div_facts z
+  have m1 : (z + 1) % 100 = 0 → (z + 1) % 4 = 0 := by omega
+  have m2 : (z + 1) % 400 = 0 → (z + 1) % 100 = 0 := by omega
+  generalize (z + 1) / 4 = a' at *
+  generalize (z + 1) / 100 = b' at *
+  generalize (z + 1) / 400 = c' at *
+  generalize z / 4 = a at *
+  generalize z / 100 = b at *
+  generalize z / 400 = c at *
+  by_cases hl : isLeap (z + 1) = true
   · rw [if_pos hl]
     rw [isLeap_iff] at hl
-    omega
+    generalize (z + 1) % 4 = r4 at *
+    generalize (z + 1) % 100 = r100 at *
+    generalize (z + 1) % 400 = r400 at *
+    split at e4 <;> split at e100 <;> split at e400 <;> omega
   · rw [if_neg hl]
     rw [isLeap_iff] at hl
-    omega
-
+    generalize (z + 1) % 4 = r4 at *
+    generalize (z + 1) % 100 = r100 at *
+    generalize (z + 1) % 400 = r400 at *
+    split at e4 <;> split at e100 <;> split at e400 <;> omega
 theorem daysBeforeYear_succ' (y : Nat) (hy : 1 ≤ y) :
     daysBeforeYear (y + 1) = daysBeforeYear y + daysBeforeMonth y 13 := by
   rw [daysBeforeYear_succ y hy, daysBeforeMonth_13]
